@@ -2317,7 +2317,7 @@ impl InferContext {
                     _ => Err(vec![Error::IndexForNonTuple(loc, tup)]),
                 }
             }
-            Expr::RecordLiteral(kvs) => {
+            Expr::RecordLiteral(kvs) | Expr::ImcompleteRecord(kvs) => {
                 let duplicate_keys = kvs
                     .iter()
                     .map(|RecordField { name, .. }| *name)
